@@ -18,7 +18,14 @@ def build_evse(sid, e):
     if e["t"] == "EVSE":
         return EVSE(sid, max_rate=e["max"], min_rate=e.get("min", 0))
     if e["t"] == "DB":
+        if e.get("user") == "derated":
+            # a user subclass overriding the documented max_rate hook: e["max"] is what it reports (half the stored nameplate value)
+            from .userext import DeratedDeadbandEVSE, DERATE
+            return DeratedDeadbandEVSE(sid, deadband_end=e["end"], max_rate=e["max"] / DERATE)
         return DeadbandEVSE(sid, deadband_end=e["end"], max_rate=e["max"])
+    if e.get("user") == "cable":
+        from .userext import CableLimitedEVSE
+        return CableLimitedEVSE(sid, list(e["rates"]))
     rates = list(e["rates"])
     form = e.get("form", "list")
     if form == "generator":
@@ -60,6 +67,9 @@ def build_battery(b):
     from acnportal.acnsim.models import Battery, Linear2StageBattery
     if b["t"] == "ideal":
         return Battery(b["cap"], b["init"], b["maxp"])
+    if b["t"] == "user":
+        from .userext import OnboardLimitedBattery
+        return OnboardLimitedBattery(b["cap"], b["init"], b["maxp"])
     return Linear2StageBattery(b["cap"], b["init"], b["maxp"], noise_level=b.get("noise", 0),
                                transition_soc=b.get("tsoc", 0.8),
                                charge_calculation=b.get("calc", "continuous"))
